@@ -75,8 +75,7 @@ func Rate(priorities []uint, dividend uint, distribution map[uint]uint) {
 		part := uint(math.Round(base * float64(priority)))
 
 		if remainder < part {
-			distribution[priority] += remainder
-			return
+			part = remainder
 		}
 
 		distribution[priority] += part
